@@ -42,11 +42,27 @@ fn cell_case(out: &mut Out, depth: u8, h: u64, tag: &str) {
       out.evaluations += 1;
       out.stat("C16:c2v:off-centre");
       if let Some(bq) = bq {
-        if !(bq >= t * (1.0 - 1e-12) - 1e-15) {
-          // finding F23: cells centred on the transition latitude, position on their equatorial side
+        // the oracle's own "true" distance is computed in doubles from coordinates of magnitude ~1: its relative
+        // error grows like ulp(1) * nside (cells of size ~1/nside), which matters where the envelope is tight
+        let tol = 1e-12 + 2e-15 * ((1u64 << depth) as f64);
+        if !(bq >= t * (1.0 - tol) - 1e-15) {
+          let ratio = bq / t;
+          let nside = 1u64 << depth;
+          let (d0, mut i, mut j) = (h >> (2 * depth), 0u64, 0u64);
+          for b in 0..depth as u64 { i |= ((h >> (2 * b)) & 1) << b; j |= ((h >> (2 * b + 1)) & 1) << b; }
+          // distance (in cells) to the pole along the two seams of the base cell
+          let (k, m) = if d0 < 4 { (nside - 1 - i, nside - 1 - j) } else { (i, j) };
+          let (kmin, kmax) = (k.min(m), k.max(m));
           let on_transition_ring = (c.1.abs() - TRANSITION_LATITUDE).abs() < 1e-12;
-          let kind = if on_transition_ring && q.1.abs() < TRANSITION_LATITUDE { "C16:c2v:not-a-bound:off-centre:transition-ring-equatorial-side" }
-                     else if c.1.abs() >= TRANSITION_LATITUDE { "C16:c2v:not-a-bound:off-centre:polar-cap" } else { "C16:c2v:not-a-bound:off-centre" };
+          let polar_side = q.1.abs() >= TRANSITION_LATITUDE;
+          let nf = nside as f64;
+          // findings F23 / F24, each with the floor observed on the unchanged code: anything worse, or anywhere else, is new
+          let kind =
+            if on_transition_ring && !polar_side { if ratio >= 0.82 { "C16:c2v:not-a-bound:off-centre:transition-ring-equatorial-side" } else { "C16:c2v:not-a-bound:off-centre:transition-ring-equatorial-side:worse-than-known" } }
+            else if on_transition_ring { if ratio >= 1.0 - 0.25 / nf { "C16:c2v:not-a-bound:off-centre:polar-cap:transition-ring-polar-side" } else { "C16:c2v:not-a-bound:off-centre:polar-cap:transition-ring-polar-side:worse-than-known" } }
+            else if c.1.abs() >= TRANSITION_LATITUDE && kmin == 0 && kmax <= 5 { if ratio >= 0.93 { "C16:c2v:not-a-bound:off-centre:polar-cap:seam-cells-next-to-pole" } else { "C16:c2v:not-a-bound:off-centre:polar-cap:seam-cells-next-to-pole:worse-than-known" } }
+            else if c.1.abs() >= TRANSITION_LATITUDE && kmin == 0 && nside - kmax <= 4 { if ratio >= 1.0 - 0.25 / nf { "C16:c2v:not-a-bound:off-centre:polar-cap:seam-cells-next-to-transition-latitude" } else { "C16:c2v:not-a-bound:off-centre:polar-cap:seam-cells-next-to-transition-latitude:worse-than-known" } }
+            else if c.1.abs() >= TRANSITION_LATITUDE { "C16:c2v:not-a-bound:off-centre:polar-cap" } else { "C16:c2v:not-a-bound:off-centre" };
           out.violation(kind, format!("{} position=({}, {}) offsets=({}, {})", inp, q.0, q.1, dx, dy), format!(">= {:e}", t), format!("{:e}", bq));
           break;
         }
